@@ -303,7 +303,7 @@ def unit_scheduler_init(tier, pid):
 def unit_backend_init(tier, pid):
     w = sk.make_backend_init_world()
     res = verify_function(w, sk.backend_init_contract(), setup=sk.backend_init_setup, extra_check=sk.backend_init_check)
-    return {'functions': [prop.discharge(res, tier, pid, lambda m, r: {'note': 'see model text'}, replay_native([('nested', {}), SWEEP_SMALL]))]}
+    return {'functions': [prop.discharge(res, tier, pid, lambda m, r: {'note': 'see model text'}, replay_native([('nested', {}), ('wide', {}), SWEEP_SMALL]))]}
 
 
 def unit_og(tier, pid, which='all'):
@@ -557,7 +557,7 @@ def rerun_args(tier, seed):
 
 SWEEP_BOUND = ('real Scheduler/QueueScheduling on all DAGs <= 3 tasks with hard/soft edges x outcomes {done, failed, raise, None, not a pair, '
                'bad status, update not a mapping, non-final status} x workers {1, 2}; all 1- and 2-task cases + a seeded sample of the 3-task cases in '
-               'the quick tier, every case in the thorough tier; cyclic graphs of 1-3 tasks; a second schedule() on the same backend; a task that schedules an inner graph on its own backend; an error raised by the master after the workers were started; an empty nested graph as a barrier between the hard and the soft graph; several schedulers built from the same graph objects; hang watchdog 6 s; C01/C02/C03 oracles')
+               'the quick tier, every case in the thorough tier; cyclic graphs of 1-3 tasks; a second schedule() on the same backend; a task that schedules an inner graph on its own backend; an error raised by the master after the workers were started; an empty nested graph as a barrier between the hard and the soft graph; several schedulers built from the same graph objects; 300-1200 independent tasks on 1-4 workers; hang watchdog 6 s; C01/C02/C03 oracles')
 PARK_BOUND = ('graph A -> B (hard and soft) + independent C, 3 workers; the worker of A is parked (threading.settrace) before every executed line '
               'of WorkerThread.run after task.do(); one preemption per run; B must read A complete whenever it starts')
 RERUN_BOUND = ('two-run histories on all DAGs <= 3 tasks, first-run outcomes {done, failed}^n, between the runs each task keeps / loses its persisted '
